@@ -6,6 +6,9 @@ import SuxModel.Lender.Runner
 import SuxModel.SigStore.Runner
 import SuxModel.RCL.Runner
 import SuxModel.GF2.Runner
+import SuxModel.EF.Runner
+import SuxModel.Edge.Runner
+import SuxModel.Space.Runner
 /-!
 # `suxdrv <runner>` : line-protocol driver over the executable model definitions
 -/
@@ -28,7 +31,10 @@ def runners : List (String × Runner) := [
   ("lender", Sux.Lender.runner),
   ("sigstore", Sux.SigStore.runner),
   ("rcl", Sux.RCL.runner),
-  ("gf2", Sux.GF2.runner)
+  ("gf2", Sux.GF2.runner),
+  ("ef", Sux.EF.runner),
+  ("edge", Sux.Edge.runner),
+  ("space", Sux.Space.runner)
 ]
 
 def main (args : List String) : IO UInt32 := do
